@@ -3062,12 +3062,15 @@ bn_mod(bn_p bn, bn_p m, bn_mod_rd_data_p mod_rd_data) {
 /* Computes: bn = (bn + n) mod m. */
 static inline int
 bn_mod_add(bn_p bn, bn_p n, bn_p m, bn_mod_rd_data_p mod_rd_data __unused) {
+	bn_digit_t carry = 0;
 
 	BN_POINTER_CHK_EINVAL(bn);
 	BN_POINTER_CHK_EINVAL(n);
 	BN_POINTER_CHK_EINVAL(m);
-	BN_RET_ON_ERR(bn_add(bn, n, NULL));
-	if (bn_cmp(bn, m) >= 0) { /* bn >= m */
+	BN_RET_ON_ERR(bn_add(bn, n, &carry));
+	/* A carry out of bn means the true sum is >= 2^capacity > m; the wrapped
+	 * subtraction below then yields exactly (sum - m). */
+	if (0 != carry || bn_cmp(bn, m) >= 0) { /* bn >= m */
 		BN_RET_ON_ERR(bn_sub(bn, m, NULL));
 	}
 	//BN_RET_ON_ERR(bn_mod(bn, m, mod_rd_data));
